@@ -1,36 +1,25 @@
-/- C09: ties to the source text.  Built and audited together with Props/C09.lean by check.py, but in a module of its own, so that a
+/- C02: ties to the source text.  Built and audited together with Props/C02.lean by check.py, but in a module of its own, so that a
    changed textual fact breaks the obligations of the properties that own it and not those of every module that imports their lemmas. -/
-import CosetProofs.Ties.RemoveFields
-import CosetProofs.Ties.Budget.Util
+import CosetProofs.Ties.Compare.Context
 import CosetProofs.Ties.Compare.Encrypt
 import CosetProofs.Ties.Compare.Header
 import CosetProofs.Ties.Compare.Mac
 import CosetProofs.Ties.Compare.Sign
-import CosetProofs.Ties.Compare.Util
-namespace Coset.Props.C09
+namespace Coset.Props.C02
 
 /-! ### ties to the source text (regenerated on every run, compared in the kernel with the transcribed tree) -/
-/-- which field each positional `remove(i)` of every array-shaped decoder feeds. -/
-theorem tie_remove_fields : Coset.Ties.genRemoveFields = Coset.Ties.pinnedRemoveFields := Coset.Ties.remove_fields
-
-#print axioms tie_remove_fields
-
-/-- decision budget of `src/util/mod.rs`: no branch, comparison or integer literal beyond the transcribed tree's (a needle no stream reaches still adds one). -/
-theorem tie_budget_util : Coset.Ties.budgetCovered "util" Coset.Gen.decisionBudget Coset.Pinned.decisionBudget = true := Coset.Ties.budget_util
-
-#print axioms tie_budget_util
 
 /-! comparisons and integer literals of the modules this property is anchored in (properties.jsonl): none beyond the transcribed tree's -/
+theorem tie_compare_context : Coset.Ties.compareCovered "context" Coset.Gen.decisionBudget Coset.Pinned.decisionBudget = true := Coset.Ties.compare_context
 theorem tie_compare_encrypt : Coset.Ties.compareCovered "encrypt" Coset.Gen.decisionBudget Coset.Pinned.decisionBudget = true := Coset.Ties.compare_encrypt
 theorem tie_compare_header : Coset.Ties.compareCovered "header" Coset.Gen.decisionBudget Coset.Pinned.decisionBudget = true := Coset.Ties.compare_header
 theorem tie_compare_mac : Coset.Ties.compareCovered "mac" Coset.Gen.decisionBudget Coset.Pinned.decisionBudget = true := Coset.Ties.compare_mac
 theorem tie_compare_sign : Coset.Ties.compareCovered "sign" Coset.Gen.decisionBudget Coset.Pinned.decisionBudget = true := Coset.Ties.compare_sign
-theorem tie_compare_util : Coset.Ties.compareCovered "util" Coset.Gen.decisionBudget Coset.Pinned.decisionBudget = true := Coset.Ties.compare_util
 
+#print axioms tie_compare_context
 #print axioms tie_compare_encrypt
 #print axioms tie_compare_header
 #print axioms tie_compare_mac
 #print axioms tie_compare_sign
-#print axioms tie_compare_util
 
-end Coset.Props.C09
+end Coset.Props.C02
